@@ -30,7 +30,7 @@ struct Log {
     std::map<size_t, int> active;     // thread id -> calls currently inside the model
     std::string overlap;              // first same-id overlap
     long max_concurrent = 0, concurrent = 0;
-    long refresh_while_running = 0, refreshes = 0;
+    long refresh_while_running = 0, refreshes = 0, y_longer_than_documented = 0;
     std::vector<double> raw_x;         // exact coordinates passed to the model, in call order
 };
 
@@ -137,7 +137,11 @@ public:
             p["limit"] = w.pick<int>({1, 2, 3, 5, 8});
             p["preloaded"] = w.chance(0.2);
             p["api"] = w.pick<std::string>({"public", "common"});
+            // blind-spot configuration (as in C17): with 1000 or more loaded points finished samples wait in the CompleteStorage
+            // instead of being loaded one by one, candidates are refreshed while samples are stored but not loaded
+            if (w.chance(0.04)) { p["large"] = w.pick<std::string>({"localp", "semi-localp", "fourier"}); p["budget_extra"] = w.range(3, 40); p["jobs"] = w.range(2, 5); p["batch"] = w.pick<int>({1, 2, 3, 4}); p["limit"] = 9; p["tol"] = 1e-6; }
         }
+        p["model_fills_in_place"] = w.chance(0.4); // the model writes y[i] relying on the documented size of y instead of assigning the vector
         p["latency"] = l.pick<std::string>({"zero", "zero", "uniform", "uniform", "heavy", "slow-one", "equal"});
         p["lat_seed"] = (long long)(l.next() >> 40); p["lat_scale"] = l.pick<double>({1e-3, 1.0, 60.0});
         p["std_sleep"] = l.chance(0.3);
@@ -153,7 +157,7 @@ public:
         Outcome out;
         const Json &mk = p.at("make");
         std::string op = p.gets("op", "construct");
-        bool stdsleep = p.getb("std_sleep");
+        bool stdsleep = p.getb("std_sleep"), inplace = p.getb("model_fills_in_place");
         Log L;
         TasmanianSparseGrid grid, twin, start;
         std::string escaped;
@@ -190,7 +194,9 @@ public:
             wait(latencyOf(p, x.data(), d, tid));
             std::vector<double> v;
             { simrt::Ignore ig; v = modelValues(x, d, outs); }
-            y = v; // visible to the race detector: the library's buffer is written by the worker
+            // visible to the race detector: the library's buffer is written by the worker
+            if (inplace && y.size() >= v.size()) { for (size_t i = 0; i < v.size(); i++) y[i] = v[i]; if (y.size() > v.size()) { simrt::Ignore ig; L.y_longer_than_documented++; } }
+            else y = v;
             leave(idx, tid);
         };
         auto amodel = [&](double const x[], double y[], size_t tid) {
@@ -205,6 +211,15 @@ public:
         // ---- body run under the simulator ----------------------------------------------------------
         auto body = [&]() {
             try {
+                if (op == "construct" && p.has("large")) {
+                    std::string lf = p.gets("large");
+                    if (lf == "localp") grid.makeLocalPolynomialGrid(2, 1, 8, 1, TasGrid::rule_localp);
+                    else if (lf == "semi-localp") grid.makeLocalPolynomialGrid(3, 1, 6, 2, TasGrid::rule_semilocalp);
+                    else grid.makeFourierGrid(2, 1, 5, TasGrid::type_level);
+                    std::vector<double> v0 = modelValues(grid.getNeededPoints(), grid.getNumDimensions(), 1);
+                    grid.loadNeededValues(v0); preloaded = grid.getNumLoaded();
+                    budget = (size_t)preloaded + (size_t)p.geti("budget_extra", 10);
+                } else
                 doMake(grid, mk);
                 d = grid.getNumDimensions(); outs = grid.getNumOutputs();
                 if (op == "load") {
@@ -227,7 +242,7 @@ public:
                     }
                 } else {
                     bool local = grid.isLocalPolynomial() || grid.isWavelet();
-                    if (p.getb("preloaded")) {
+                    if (p.getb("preloaded") && !p.has("large")) {
                         std::vector<double> v = modelValues(grid.getNeededPoints(), d, outs);
                         grid.loadNeededValues(v); preloaded = grid.getNumLoaded();
                     }
@@ -319,6 +334,8 @@ public:
             if (op == "construct" && (size_t)c.npts > batch) st.inc("note.batch_larger_than_max_samples_per_job");
         }
         if (op == "construct") {
+            if (p.has("large")) st.inc("reach.large_start_grid_runs");
+            if (L.y_longer_than_documented) st.inc("note.y_longer_than_documented_on_entry", L.y_longer_than_documented); // the consequence (values at wrong points) is what the property names
             if (launched > budget) {
                 std::string phase = first_over <= jobs ? "initial-launch" : "main-loop";
                 out.fail("budget_exceeded", "C18/budget_exceeded/" + phase, std::to_string(launched) + " samples launched, max_num_points = " + std::to_string(budget) + " (" + std::to_string(jobs) + " jobs, batch " + std::to_string(batch) + ")");
